@@ -210,12 +210,8 @@ func (s *segment) rebuildIndex() error {
 	s.Index.position = 0
 	s.Index.mu.Unlock()
 
-	// If log file is empty, we're done
-	if s.position == 0 {
-		return nil
-	}
-
-	// Scan the log file and rebuild index entries
+	// Scan the log file and rebuild index entries (none if the log is empty;
+	// the index position must still be finalized below).
 	var pos int64
 	headerBuf := make([]byte, msgSetHeaderLen)
 
